@@ -81,10 +81,8 @@ def _integrate_set_bookkeeping(prog: Program, col: Collector, refs: Refs, cat: C
 
         def on_stmt(st, en, g_=g_, pm=pm, pi=pi, pr=pr):
             W = en["<world>"]
-            if not isinstance(st, ast.Return) or st.value is None:
-                return
             # R13.8: nested Integrate(<component>, ..., R) in a mixture rule
-            if measure == "GaussianMixture":
+            if measure == "GaussianMixture" and isinstance(st, (ast.Return, ast.Assign, ast.Expr, ast.AugAssign)) and st.value is not None:
                 for c in ast.walk(st.value):
                     if isinstance(c, ast.Call) and (refs.resolve(c.func) or "").endswith("Integrate") and len(c.args) == 3 and norm(c.args[0]) != pm:
                         key = f"{g_.fq}::{norm(c)[:60]}"
@@ -97,6 +95,8 @@ def _integrate_set_bookkeeping(prog: Program, col: Collector, refs: Refs, cat: C
                                  "multiplied in afterwards, so the result still depends on the variable and has the wrong value", c)
                         else:
                             note(good, key, "on every path that reaches it the reduced variables are all real", c)
+            if not isinstance(st, ast.Return) or st.value is None:
+                return
             # R13.9: Tensor(data, I).reduce(op, S)
             v = st.value
             if isinstance(v, ast.Call) and isinstance(v.func, ast.Attribute) and v.func.attr == "reduce" and len(v.args) == 2:
@@ -306,6 +306,93 @@ def run(prog: Program, col: Collector, tier: str, refs: Optional[Refs] = None, c
         col.check(ok, f"{h.fq}::if {norm(t_.test)}", f"the rank is compared with the size of the integrated block `{blk_a}`",
                   f"`{norm(t_.test)}` compares the rank with {', '.join(f'{nm} = {dims[nm]}' for nm in names) or 'something else'}: information about the remaining inputs is left exactly "
                   f"when rank > dim({blk_a}); comparing with the other block drops (or invents) the Gaussian over the remaining inputs for rank-deficient factors", h.loc(t_))
+    # ---------------------------------------------------------------- R13.7 (second clause) the "too little information" guard of eager_reduce
+    blocks_ = {}
+    for a in ast.walk(f.node):
+        if isinstance(a, ast.Assign) and isinstance(a.value, ast.Subscript) and norm(a.value.value) == f"{selfn}.prec_sqrt" and isinstance(a.targets[0], ast.Name):
+            idx = a.value.slice
+            blocks_[a.targets[0].id] = [norm(e) for e in (idx.elts if isinstance(idx, ast.Tuple) else [idx])]
+    split_ = next((st for st in ast.walk(f.node) if isinstance(st, ast.Assign) and isinstance(st.value, ast.Call) and norm(st.value.func).endswith("_split_real_inputs")
+                   and isinstance(st.targets[0], ast.Tuple) and len(st.targets[0].elts) == 2), None)
+    if split_ is not None:
+        red_i, kept_i = (norm(e) for e in split_.targets[0].elts)
+        dims_ = {norm(st.targets[0]): st.value for st in ast.walk(f.node) if isinstance(st, ast.Assign) and isinstance(st.targets[0], ast.Name) and ".shape[" in norm(st.value)}
+        for g_ in ast.walk(f.node):
+            if not (isinstance(g_, ast.If) and any(isinstance(r, ast.Raise) for r in g_.body) and "rank" in norm(g_.test)):
+                continue
+            names = [y.id for y in ast.walk(g_.test) if isinstance(y, ast.Name) and y.id in dims_]
+            owners = []
+            for nm in names:
+                base = next((y.id for y in ast.walk(dims_[nm]) if isinstance(y, ast.Name) and y.id in blocks_), None)
+                owners.append(blocks_.get(base, [None, None])[1] if base else None)
+            construct = f"{f.fq}::if {norm(g_.test)}: raise"
+            if names and all(o == red_i for o in owners):
+                col.ok(construct, "the rank is compared with the size of the marginalised block", f.loc(g_))
+            elif any(o == kept_i for o in owners):
+                col.violation(construct, f"`{norm(g_.test)}` compares the rank with the size of the KEPT block ({', '.join(names)}): marginalising is possible exactly when rank >= dim of the "
+                              "marginalised block, so a rank-deficient Gaussian that is informative about the integrated inputs is rejected, and one that is not slips through to a singular "
+                              "Cholesky factor", f.loc(g_))
+            else:
+                col.unresolved(construct, "the dimension compared with the rank is not the row count of one of the two blocks", f.loc(g_))
+    # ---------------------------------------------------------------- R13.11 an unwrapped negation is compensated
+    col.rule("R13.11", "an Integrate rule that strips the negation of a term (`t.arg` of a Unary[NegOp, Gaussian]) negates the integral of that term", floor=2)
+    for reg in cat.registrations:
+        g_ = reg.target
+        if g_ is None or not reg.pattern or isinstance(g_.node, ast.Lambda) or refs.resolve(reg.pattern[0]) != "funsor.integrate.Integrate":
+            continue
+        if not any("NegOp" in norm(p_) for p_ in reg.pattern[1:]):
+            continue
+        # names that may denote a negated term: the parameter whose pattern mentions NegOp, and loop variables over its `.terms`
+        negs = {g_.positional[i] for i, p_ in enumerate(reg.pattern[1:]) if i < len(g_.positional) and "NegOp" in norm(p_)}
+        for lp in ast.walk(g_.node):
+            if isinstance(lp, (ast.For, ast.comprehension)) and isinstance(lp.target, ast.Name) and isinstance(lp.iter, ast.Attribute) and lp.iter.attr == "terms" \
+                    and isinstance(lp.iter.value, ast.Name) and lp.iter.value.id in negs:
+                negs.add(lp.target.id)
+        for y in ast.walk(g_.node):
+            if not (isinstance(y, ast.Attribute) and y.attr == "arg" and isinstance(y.value, ast.Name) and y.value.id in negs):
+                continue
+            # climb to the arm / statement boundary looking for a negation applied to a value computed from `y`
+            compensated = False
+            node = y
+            for a in g_.module.ancestors(y):
+                if isinstance(a, ast.UnaryOp) and isinstance(a.op, ast.USub):
+                    compensated = True
+                    break
+                if isinstance(a, ast.Call) and norm(a.func).rsplit(".", 1)[-1] in ("neg", "Unary") and (norm(a.func).endswith("neg") or (a.args and norm(a.args[0]).endswith("neg"))):
+                    compensated = True
+                    break
+                if isinstance(a, ast.BinOp) and isinstance(a.op, ast.Sub) and any(node is z for z in ast.walk(a.right)):
+                    compensated = True
+                    break
+                if isinstance(a, (ast.stmt, ast.comprehension)) or (isinstance(a, ast.IfExp) and (any(node is z for z in ast.walk(a.body)) or any(node is z for z in ast.walk(a.orelse)))
+                                                                     and not any(node is z for z in ast.walk(a.test))):
+                    # leaving the arm in which the wrapper was stripped
+                    if isinstance(a, ast.IfExp):
+                        pass
+                    break
+                node = a
+            # the IfExp case: the negation may be applied to the whole arm: `-I(t.arg) if neg else I(t)` has the USub inside the arm (found above)
+            col.check(compensated, f"{g_.fq}::{norm(y)}", "the integral of the stripped term is negated (linearity of the integral)",
+                      f"`{norm(y)}` strips the negation of a term matched as Unary[NegOp, Gaussian], but no negation is applied to the integral computed from it: Integrate(q, f - h) "
+                      "returns I(q, f) + I(q, h)", g_.loc(y))
+    # ---------------------------------------------------------------- R13.12 a mixture may itself be reduced
+    col.rule("R13.12", "a rule that destructures the `.terms` of a GaussianMixture operand accounts for the operand's own reduction (red_op / reduced_vars)", floor=3)
+    SCOPE = ("funsor.integrate", "funsor.joint", "funsor.cnf", "funsor.gaussian")
+    for reg in cat.registrations:
+        g_ = reg.target
+        if g_ is None or not reg.pattern or isinstance(g_.node, ast.Lambda) or g_.module.name not in SCOPE:
+            continue
+        for i, p_ in enumerate(reg.pattern[1:]):
+            if i >= len(g_.positional) or not (isinstance(p_, (ast.Name, ast.Attribute)) and (refs.resolve(p_) or "").endswith("cnf.GaussianMixture")):
+                continue
+            P = g_.positional[i]
+            reads = {y.attr for y in ast.walk(g_.node) if isinstance(y, ast.Attribute) and isinstance(y.value, ast.Name) and y.value.id == P}
+            if "terms" not in reads:
+                continue
+            col.check(bool(reads & {"reduced_vars", "red_op"}), f"{g_.fq}::{P}.terms", f"`{P}.reduced_vars` / `{P}.red_op` is consulted",
+                      f"`{P}` matches GaussianMixture = Contraction[LogaddexpOp | NullOp, AddOp, frozenset, (Tensor, Gaussian)], which includes a mixture lazily reduced over some of its "
+                      f"inputs; the rule takes `{P}.terms` apart and never looks at `{P}.reduced_vars`, so the bound variables of that reduction leak into the result as inputs "
+                      "(Integrate((t + g).reduce(logaddexp, 'i'), x, 'x') returns a tensor over `i__BOUND` instead of the sum)", g_.loc())
     # ---------------------------------------------------------------- R13.8 / R13.9 set bookkeeping of the Integrate rules, in every world
     _integrate_set_bookkeeping(prog, col, refs, cat)
     # ---------------------------------------------------------------- R13.10 a Gaussian declared over merged inputs needs expanded factors
